@@ -505,7 +505,11 @@ def render_impl(reg, job):
 
 
 def build_registry(inputs, registry, cmps, dict_fields=(), dict_regex=()):
-    gen = MetadataGenerator(registry, dict_keys_regex=list(dict_regex), dict_keys_fields=list(dict_fields))
+    if registry is None:
+        # the library's defaults: no registry argument at all (the process-wide default registry of string types)
+        gen = MetadataGenerator(dict_keys_regex=list(dict_regex), dict_keys_fields=list(dict_fields))
+    else:
+        gen = MetadataGenerator(registry, dict_keys_regex=list(dict_regex), dict_keys_fields=list(dict_fields))
     reg = _TableRegistry(*cmps)
     for name, samples in inputs:
         reg.process_meta_data(gen.generate(*copy.deepcopy(samples)), name)
